@@ -250,13 +250,27 @@ def grid_cells(xs, ys, order=None):
 MOD_KINDS = ("M", "M+other", "other+M", "other", "empty", "none", "dupM")
 
 
+# the selected module and the other module of a case: names that share prefixes with each other (a match by prefix /
+# substring instead of by name picks the other module's ratio)
+NAME_PAIRS = [("M", "other"), ("M", "other"), ("M", "M2"), ("M", "M10"), ("M", "Mx"), ("M2", "M"), ("M10", "M1"), ("M1", "M10"),
+              ("oth", "other"), ("other", "oth"), ("Mx", "M"), ("M", "aM"), ("aM", "M")]
+_NAMES = {"sel": "M", "other": "other"}
+
+
+def set_names(inp) -> None:
+    sel, other = inp.get("names") or ("M", "other")
+    _NAMES["sel"], _NAMES["other"] = sel, other
+
+
 def mod_list(kind: str, p: float):
-    """the per-cell module list of the parsed allocation (`ifile`) for a cell of the given kind"""
+    """the per-cell module list of the parsed allocation (`ifile`) for a cell of the given kind (kinds are written with
+    `M` = the selected module, `other` = the other one; their NAMES are the case's `names`)"""
     o = min(0.1, max(0.0, 1.0 - p))
-    return {"M": [{"M": p}], "M+other": [{"M": p}, {"other": o}], "other+M": [{"other": o}, {"M": p}],
-            "other": [{"other": 0.3}], "empty": [], "none": None,
+    M, other = _NAMES["sel"], _NAMES["other"]
+    return {"M": [{M: p}], "M+other": [{M: p}, {other: o}], "other+M": [{other: o}, {M: p}],
+            "other": [{other: 0.3}], "empty": [], "none": None,
             # the module listed twice (only in a hand-built record list): the LAST entry is the one select_box keeps
-            "dupM": [{"M": 0.125}, {"other": o}, {"M": p}]}[kind]
+            "dupM": [{M: 0.125}, {other: o}, {M: p}]}[kind]
 
 
 def expected_occ(inp) -> list[float]:
@@ -305,6 +319,7 @@ def make_ip(inp):
     cells = grid_cells(xs, ys, inp.get("order"))
     via = inp.get("via")
     _LAST["alloc_cells"] = None
+    set_names(inp)
     if via in ("alloc", "select_box", "get_alloc"):
         if via == "alloc":      # cells given as an allocation stores them: [xc, yc, w, h], in listing order
             dims = [list(d) for d in inp["alloc"]]
@@ -317,7 +332,7 @@ def make_ip(inp):
         else:
             rects = [{f"b{t}": [{"dim": d}, {"mod": mod_list(mods[t], occ[t])}]} for t, d in enumerate(dims)]
             ifile = {"Width": 1.0, "Height": 1.0, "Rectangles": rects}
-        ip, _ = call("select_box", select_box, "M", ifile)
+        ip, _ = call("select_box", select_box, _NAMES["sel"], ifile)
         _LAST["ifile"] = ifile
     else:
         _LAST["ifile"] = None
@@ -410,11 +425,11 @@ def select_box_tie(ctx: Ctx, inp, ip, size, reqs, todo) -> None:
         ctx.count("get_alloc:records-compared")
     if ifile is not None:
         fx = lambda v: f2hex(float(v))
-        reqs.append(f"F selbox M {ifile_wire(ifile, fx)}")
+        reqs.append(f"F selbox {_NAMES['sel']} {ifile_wire(ifile, fx)}")
         todo.append(("selbox:F", inp, list(ip), size))
         if inp.get("via") in ("select_box", "get_alloc"):
             qx = lambda v: q2s(Fraction(v))
-            reqs.append(f"Q selbox M {ifile_wire(ifile, qx)}")
+            reqs.append(f"Q selbox {_NAMES['sel']} {ifile_wire(ifile, qx)}")
             todo.append(("selbox:Q", inp, list(ip), size))
     c = types.SimpleNamespace(input_problem=list(ip), factor=FACTOR)
     sel = [int(call("area", rect.area, c, b, True)) for b in range(len(ip))]
@@ -582,7 +597,7 @@ def grid_case(ctx: Ctx, inp: dict, reqs: list, todo: list) -> None:
     #     model (exact rationals: dyadic data, where the float arithmetic of the implementation is exact)
     if inp.get("via") in ("select_box", "get_alloc") and _LAST.get("ifile") is not None and \
             all(_dyadic(float(v)) and abs(v) < 2 ** 30 for b in ip for v in b):
-        reqs.append(f"Q chain {k} {int(ratio)} {dif0} {FACTOR} M {ifile_wire(_LAST['ifile'], lambda v: q2s(Fraction(v)))}")
+        reqs.append(f"Q chain {k} {int(ratio)} {dif0} {FACTOR} {_NAMES['sel']} {ifile_wire(_LAST['ifile'], lambda v: q2s(Fraction(v)))}")
         todo.append(("solvec", inp, impl_set, size))
         ctx.count("chain:allocation-to-constraints")
     # 2. every model of the real CNF  vs  brute force
@@ -731,7 +746,7 @@ def seam_case(ctx: Ctx, inp: dict, reqs: list, todo: list) -> None:
     dims = [rm[t] for t in perm]                       # the allocation lists its cells in this order
     ginp = {"kind": "grid", "alloc": dims, "order": perm, "occ": inp["occ"], "mods": inp.get("mods"), "k": inp["k"], "ratio": inp["ratio"],
             "dif0": inp.get("dif0", LOW), "family": "decimal-alloc/" + inp.get("perm_kind", "rowmajor") + ("/noisy" if inp.get("noise") else ""),
-            "via": "alloc", "xs": [], "ys": []}
+            "via": "alloc", "xs": [], "ys": [], "names": inp.get("names")}
     # through a YAML allocation file and the real get_alloc (allocation files only admit non-negative corners)
     if inp.get("through_file") and all(d[0] - d[2] / 2 >= 0 and d[1] - d[3] / 2 >= 0 for d in dims):
         ginp["through_file"] = True
@@ -776,9 +791,14 @@ def snap_case(ctx: Ctx, inp: dict, reqs: list, todo: list) -> None:
     """kind = 'snap': cells whose sides miss each other by about the snapping tolerance (1e-9·extent): above it the input is
     not a grid and the property says nothing, so only the correspondence of select_box with its Lean model is checked"""
     dims, mods, occ = inp["alloc"], inp["mods"], inp["occ"]
+    set_names(inp)
     rects = [{f"b{t}": [{"dim": d}, {"mod": mod_list(mods[t], occ[t])}]} for t, d in enumerate(dims)]
     ifile = {"Width": 1.0, "Height": 1.0, "Rectangles": rects}
-    ip, _ = call("select_box", select_box, "M", ifile)
+    ip, _ = call("select_box", select_box, _NAMES["sel"], ifile)
+    exp = [occ[t] if ("M" in mods[t].split("+") or mods[t] == "dupM") else 0.0 for t in range(len(dims))]
+    if [b[4] for b in ip] != exp:
+        ctx.spec_fail("select_box:one-box-per-cell", inp, {"occupancies": [b[4] for b in ip], "expected": exp,
+                                                           "names": [_NAMES["sel"], _NAMES["other"]]}, len(dims))
     _LAST["ifile"] = ifile
     _LAST["alloc_cells"] = None
     select_box_tie(ctx, inp, ip, len(dims), reqs, todo)
@@ -800,7 +820,8 @@ def gen_snap(rng):
                 d[rng.randrange(4)] += rng.choice([1, -1]) * rng.choice([2e-10, 8e-10, 9.9e-10, 1e-9, 1.01e-9, 1.2e-9, 2e-9, 5e-9, 1e-7]) * ext
             dims.append(d)
     rng.shuffle(dims)
-    return {"kind": "snap", "alloc": dims, "mods": gen_mods(rng, m * n), "occ": gen_occ(rng, m * n)}
+    return {"kind": "snap", "alloc": dims, "mods": gen_mods(rng, m * n), "occ": gen_occ(rng, m * n),
+            "names": list(rng.choice(NAME_PAIRS))}
 
 
 def compare(ctx: Ctx, todo, replies) -> None:
@@ -950,6 +971,7 @@ def gen_grid_input(rng, m, n, k, fam=None, bound_mode=None, via=None):
     inp = {"kind": "grid", "xs": xs, "ys": ys, "order": order, "occ": occ, "k": k, "ratio": ratio, "dif0": LOW,
            "family": fam + ("/origin0" if ox == 0 and oy == 0 else "/shifted"), "via": via}
     if via == "select_box":
+        inp["names"] = list(rng.choice(NAME_PAIRS))
         if rng.random() < 0.6 and xs[0] >= 0 and ys[0] >= 0:   # through a YAML allocation file and the real get_alloc
             # (allocation files only admit non-negative rectangle coordinates)
             inp["via"] = "get_alloc"
@@ -1037,7 +1059,8 @@ def run(ctx: Ctx) -> None:
                 "row-major / reversed / column-major / column-major reversed / shuffled, occupancies in {0, 1, .5, .9, .25, random} or all 0 / all 1 / tiny, ratio 1, 2 or 3, k boxes; the real "
                 "rect.solve is run with a cost bound (none / max achievable / max+1 / random achievable±1); part of the grids "
                 "go through rect_io.select_box (dyadic data), half of those through a YAML allocation file and the real get_alloc, "
-                "with 0–40 % truly empty cells ({}), cells hosting only another module, the module with another one. quick: every shape ≤ 3×3 with k ≤ 3 (5 grids per shape for k ≤ 2, "
+                "with 0–40 % truly empty cells ({}), cells hosting only another module, the module with another one; the two module NAMES of a case "
+                "share prefixes / suffixes (M/M2, M/M10, M10/M1, M/Mx, oth/other, M/aM, … in either role). quick: every shape ≤ 3×3 with k ≤ 3 (5 grids per shape for k ≤ 2, "
                 "2 for k = 3), each with and without a cost bound, + 60 random ≤ 3×3 / 2×4 with bounds; thorough: every shape ≤ 3×3 "
                 "and 2×4, 4×2 with k ≤ 3 (12 grids each) and 1500 random ≤ 4×4 with cost bounds.  'seam' cases: uniform decimal-step "
                 "grids given as (centre, size) like an allocation file, through rect_io.select_box; 120 (thorough 1500) of them with the centre / "
@@ -1102,7 +1125,7 @@ def run(ctx: Ctx) -> None:
                        "ox": rng.choice([0.0, 1.0, 0.2]), "oy": rng.choice([0.0, -1.0, 0.4]), "perm": perm, "perm_kind": pk,
                        "occ": gen_occ(rng, m * n), "mods": gen_mods(rng, m * n) if rng.random() < 0.6 else None,
                        "k": rng.choice([1, 2, 2]) if quick or m * n > 9 else rng.choice([1, 2, 3]),
-                       "ratio": rng.choice([2.0, 3.0, 1.0])})
+                       "ratio": rng.choice([2.0, 3.0, 1.0]), "names": list(rng.choice(NAME_PAIRS))})
     # computed-looking centres / sizes: individual cells off by a few ulps, grids anchored at the origin (a side exactly at
     # 0.0 next to sides carrying noise), at other decimal origins, listed in any order, half of them through a YAML file
     for _ in range(ctx.n(120, 1500)):
@@ -1119,7 +1142,8 @@ def run(ctx: Ctx) -> None:
         inp = {"kind": "seam", "m": m, "n": n, "step": step, "ox": rng.choice([0.0, 0.0, 0.0, 1.0, 0.2]),
                "oy": rng.choice([0.0, 0.0, 0.4, 2.0]), "perm": perm, "perm_kind": pk, "noise": nz,
                "occ": gen_occ(rng, m * n), "mods": gen_mods(rng, m * n) if rng.random() < 0.4 else None,
-               "k": k, "ratio": rng.choice([2.0, 3.0, 1.0]), "through_file": rng.random() < 0.5}
+               "k": k, "ratio": rng.choice([2.0, 3.0, 1.0]), "through_file": rng.random() < 0.5,
+               "names": list(rng.choice(NAME_PAIRS))}
         inputs.append(inp)
     for _ in range(ctx.n(300, 3000)):
         inputs.append(gen_snap(rng))
